@@ -3,6 +3,7 @@ package rules
 import (
 	"fmt"
 	"go/ast"
+	"go/token"
 	"go/types"
 	"strings"
 
@@ -33,12 +34,97 @@ func CanonicalForm(p *core.Program, r *core.Report, rule string) {
 	protoField := p.Field(core.PkgCommon, "ConnectionSet", "AllowedProtocols")
 	allField := p.Field(core.PkgCommon, "ConnectionSet", "AllowAll")
 	canon := p.Func(core.PkgCommon, "ConnectionSet", "checkIfAllConnections")
-	if protoField == nil || allField == nil || canon == nil {
-		r.Lost(rule, "ConnectionSet.AllowedProtocols / AllowAll / checkIfAllConnections")
+	if canon != nil && core.RefName(canon.Obj) != "checkIfAllConnections" {
+		canon = nil // resolved to a caller that absorbed it: handled as the inlined form below
+	}
+	if protoField == nil || allField == nil {
+		r.Lost(rule, "ConnectionSet.AllowedProtocols / AllowAll")
 		return
 	}
+	// The canonicalisation written in place (the helper inlined into its callers): `if <fullness predicate of the receiver>
+	// { recv.AllowAll = true; recv.AllowedProtocols = <empty map> }`. The fullness predicate is found by what it does: a
+	// parameterless bool method of ConnectionSet that asks IsAll of entries of the protocol map.
+	fullPreds := map[*types.Func]bool{}
+	for _, m := range p.Methods(core.PkgCommon, "ConnectionSet") {
+		sig := m.Obj.Type().(*types.Signature)
+		if sig.Params().Len() != 0 || sig.Results().Len() != 1 {
+			continue
+		}
+		if b, ok := sig.Results().At(0).Type().Underlying().(*types.Basic); !ok || b.Kind() != types.Bool {
+			continue
+		}
+		asks := false
+		ast.Inspect(m.Decl.Body, func(n ast.Node) bool {
+			if c, ok := n.(*ast.CallExpr); ok {
+				if fn := core.Callee(m.Pkg.TypesInfo, c); fn != nil && core.RefName(fn) == "IsAll" && core.RecvTypeName(fn.Type().(*types.Signature)) == "PortSet" {
+					asks = true
+				}
+			}
+			return true
+		})
+		if asks {
+			fullPreds[m.Obj] = true
+		}
+	}
+	inlineCanon := map[*ast.CallExpr]bool{} // predicate calls that guard an in-place canonicalisation
+	nInline, badInline := 0, ""
+	for _, m := range p.Methods(core.PkgCommon, "ConnectionSet") {
+		info := m.Pkg.TypesInfo
+		ast.Inspect(m.Decl.Body, func(n ast.Node) bool {
+			ifs, ok := n.(*ast.IfStmt)
+			if !ok {
+				return true
+			}
+			c, isCall := ast.Unparen(ifs.Cond).(*ast.CallExpr)
+			if !isCall || !fullPreds[core.Callee(info, c)] {
+				return true
+			}
+			setsFlag, clearsMap := false, false
+			for _, st := range ifs.Body.List {
+				as, isAs := st.(*ast.AssignStmt)
+				if !isAs || len(as.Lhs) != 1 || len(as.Rhs) != 1 {
+					continue
+				}
+				if core.FieldOf(info, as.Lhs[0]) == allField {
+					if v, isC := core.ConstString(info, as.Rhs[0]); isC && v == "true" {
+						setsFlag = true
+					}
+				}
+				if core.FieldOf(info, as.Lhs[0]) == protoField {
+					if cl, isCl := ast.Unparen(as.Rhs[0]).(*ast.CompositeLit); isCl && len(cl.Elts) == 0 {
+						clearsMap = true
+					}
+					if mk, isMk := ast.Unparen(as.Rhs[0]).(*ast.CallExpr); isMk && core.IsBuiltinCall(info, mk, "make") && len(mk.Args) == 1 {
+						clearsMap = true
+					}
+				}
+			}
+			if canon != nil && m.Obj == canon.Obj {
+				return true
+			}
+			nInline++
+			if setsFlag && clearsMap {
+				inlineCanon[c] = true
+			} else if badInline == "" {
+				badInline = m.Key() + " at " + p.Pos(ifs.Pos())
+			}
+			return true
+		})
+	}
+	if canon == nil {
+		if nInline == 0 {
+			r.Lost(rule, "checkIfAllConnections (or its in-place form: if <all ports of all protocols> { AllowAll = true; AllowedProtocols = {} })")
+			return
+		}
+		r.Check(badInline == "", rule, "netpol/internal/common.(*ConnectionSet).checkIfAllConnections: sets AllowAll and empties the protocol map", "-",
+			"the canonicalisation is written in place under the fullness predicate", "the in-place canonicalisation in "+badInline+" no longer sets AllowAll=true with an empty protocol map: full sets stay spelled as three ranges")
+	}
+	var canonObj *types.Func
+	if canon != nil {
+		canonObj = canon.Obj
+	}
 	// the canonicaliser itself must set the flag and clear the map under the fullness test
-	{
+	if canon != nil {
 		setsFlag, clearsMap := false, false
 		// the two writes, in the canonicaliser itself or in a method of the set it calls (a constant argument binds
 		// the callee's parameter)
@@ -132,9 +218,9 @@ func CanonicalForm(p *core.Program, r *core.Report, rule string) {
 					return entryOfProtoMap(info, m, se.X, protoField, recv)
 				}
 				// unexported helpers of ConnectionSet that grow (addAllConns, AddConnection called on the receiver)
-				if core.RecvTypeName(fn.Type().(*types.Signature)) == "ConnectionSet" && isRecvRooted(se.X) && fn != canon.Obj && fn != m.Obj {
+				if core.RecvTypeName(fn.Type().(*types.Signature)) == "ConnectionSet" && isRecvRooted(se.X) && fn != canonObj && fn != m.Obj {
 					if fd := p.ByObj[fn]; fd != nil && growsProtoMap(p, fd, protoField) {
-						return !establishesCanon(p, fd, canon.Obj)
+						return !establishesCanon(p, fd, canonObj)
 					}
 				}
 			}
@@ -144,12 +230,12 @@ func CanonicalForm(p *core.Program, r *core.Report, rule string) {
 			switch x := n.(type) {
 			case *ast.CallExpr:
 				fn := core.Callee(info, x)
-				if fn == canon.Obj {
+				if (canonObj != nil && fn == canonObj) || inlineCanon[x] {
 					return true
 				}
 				// a callee that itself ends canonical
 				if fn != nil && core.RecvTypeName(fn.Type().(*types.Signature)) == "ConnectionSet" && fn != m.Obj {
-					if fd := p.ByObj[fn]; fd != nil && growsProtoMap(p, fd, protoField) && establishesCanon(p, fd, canon.Obj) {
+					if fd := p.ByObj[fn]; fd != nil && growsProtoMap(p, fd, protoField) && establishesCanon(p, fd, canonObj) {
 						return true
 					}
 				}
@@ -216,10 +302,32 @@ func CanonicalForm(p *core.Program, r *core.Report, rule string) {
 			continue
 		}
 		info := fd.Pkg.TypesInfo
+		// the reviewed constructor may fill the set it builds field by field instead of in the literal
+		rebuilds := fd.Pkg.PkgPath == core.PkgConnlist && core.RefName(fd.Obj) == "GetConnectionSetFromP2PConnection"
+		fresh := map[types.Object]bool{}
+		if rebuilds {
+			ast.Inspect(fd.Decl.Body, func(n ast.Node) bool {
+				if as, ok := n.(*ast.AssignStmt); ok && len(as.Lhs) == 1 && len(as.Rhs) == 1 {
+					rhs := ast.Unparen(as.Rhs[0])
+					if ue, isU := rhs.(*ast.UnaryExpr); isU && ue.Op == token.AND {
+						rhs = ast.Unparen(ue.X)
+					}
+					if cl, isCl := rhs.(*ast.CompositeLit); isCl && core.TypeIs(info.TypeOf(cl), core.PkgCommon, "ConnectionSet") {
+						if id, isID := as.Lhs[0].(*ast.Ident); isID {
+							fresh[info.ObjectOf(id)] = true
+						}
+					}
+				}
+				return true
+			})
+		}
 		ast.Inspect(fd.Decl.Body, func(n ast.Node) bool {
 			switch x := n.(type) {
 			case *ast.AssignStmt:
 				for _, l := range x.Lhs {
+					if rid := core.RootIdent(l); rebuilds && rid != nil && fresh[info.ObjectOf(rid)] {
+						continue // judged with the literal below
+					}
 					if f := core.FieldOf(info, l); f == protoField || f == allField {
 						r.Bad(rule+"-encap", fd.Key()+": writes ConnectionSet."+core.RefName(f)+" directly", p.Pos(x.Pos()), "the representation of a connection set is written outside package common: the canonical-form invariant is no longer protected by the package's operations")
 					}
@@ -232,6 +340,14 @@ func CanonicalForm(p *core.Program, r *core.Report, rule string) {
 					c := fd.Key() + ": builds a ConnectionSet literal"
 					if fd.Pkg.PkgPath == core.PkgConnlist && core.RefName(fd.Obj) == "GetConnectionSetFromP2PConnection" {
 						ok := literalCopiesRow(info, x, allField, protoField)
+						if !ok {
+							// the flag written after the literal, from the row
+							for _, fw := range FieldWrites(info, fd.Decl.Body) {
+								if nm, _ := callName(info, fw.Value); fw.Field == allField && nm == "AllProtocolsAndPorts" {
+									ok = true
+								}
+							}
+						}
 						r.Check(ok, rule+"-encap", c, p.Pos(x.Pos()), "rebuilds a set from a result row: AllowAll is the row's AllProtocolsAndPorts() and the map is filled from the row's ranges (canonical iff the row is)",
 							"the literal no longer takes AllowAll from the row's AllProtocolsAndPorts(): rebuilt sets are not canonical and equalConns compares them")
 					} else {
@@ -335,7 +451,7 @@ func establishesCanon(p *core.Program, fd *core.FuncDecl, canon *types.Func) boo
 	// conservative and simple: the canonicaliser is called by the last statement of the body
 	if n := len(fd.Decl.Body.List); n > 0 {
 		if es, ok := fd.Decl.Body.List[n-1].(*ast.ExprStmt); ok {
-			if call, ok := es.X.(*ast.CallExpr); ok && core.Callee(info, call) == canon {
+			if call, ok := es.X.(*ast.CallExpr); ok && canon != nil && core.Callee(info, call) == canon {
 				last = true
 			}
 		}
